@@ -5,7 +5,9 @@ import (
 	"fmt"
 	"os"
 	"path/filepath"
+	"runtime"
 	"runtime/debug"
+	"strings"
 	"time"
 )
 
@@ -38,6 +40,27 @@ func main() {
 	r := NewRng(*seed)
 	var res *AreaOut
 	var err error
+	// the code under test must neither hang nor need an unbounded stack (C08, C17): a run that does not finish
+	// in time is reported as an oracle failure of whatever property is being checked, with the blocked goroutines
+	debug.SetMaxStack(64 << 20)
+	if !strings.HasSuffix(area, "-child") {
+		limit := 7 * time.Minute
+		time.AfterFunc(limit, func() {
+			buf := make([]byte, 1<<20)
+			buf = buf[:runtime.Stack(buf, true)]
+			var blocked []string
+			for _, g := range strings.Split(string(buf), "\n\n") {
+				if strings.Contains(g, "PowerDNS/lightningstream/") && !strings.Contains(g, "lsverif") && len(blocked) < 6 {
+					blocked = append(blocked, g)
+				}
+			}
+			hung := &AreaOut{Area: area, Seed: *seed, N: *n, Hist: map[string]int{}, Rule: "aborted: the run did not finish", Samples: []any{"(aborted)"},
+				Oracle: []OracleFailure{{Property: "ANY", Clause: "hang", Desc: fmt.Sprintf("area %s did not finish within %v: the code under test hangs (goroutines inside the repository's code are listed in the input)", area, limit), Input: blocked}}}
+			_ = writeJSON(filepath.Join(*out, "area_"+area+".json"), hung)
+			fmt.Printf("area=%s HUNG\n", area)
+			os.Exit(0)
+		})
+	}
 	func() {
 		defer func() {
 			if rec := recover(); rec != nil {
